@@ -79,6 +79,7 @@ type Evidence struct {
 }
 
 func runCheck(prop, repo, verif, tier, work string, tmo int, verbose bool, updateBaseline bool) int {
+	gProp = prop
 	t0 := time.Now()
 	seed, _ := strconv.Atoi(os.Getenv("VERIF_SEED"))
 	defer os.RemoveAll(work)
@@ -243,8 +244,16 @@ func runCheck(prop, repo, verif, tier, work string, tmo int, verbose bool, updat
 		isKnown := false
 		for _, ke := range known {
 			if ke.Kind == "known" && ke.Property == prop && ke.Obligation == f.name {
+				// a listed finding is identified by its obligation AND its failing input: when a canary input is
+				// registered for the obligation it must still reproduce on the real code, otherwise this failure is
+				// a different violation of the same property and is reported as one
+				var cr ReplayResult
+				if hasCanary(f.name, verif) && !tryCanary(f.name, repo, verif, work, &cr) {
+					continue
+				}
 				isKnown = true
-				lines = append(lines, fmt.Sprintf("KNOWN-FINDING: property=%s %s", prop, ke.Rest))
+				rest := strings.TrimSpace(strings.TrimPrefix(ke.Rest, "property="+prop))
+				lines = append(lines, fmt.Sprintf("KNOWN-FINDING: property=%s %s", prop, rest))
 				knownHit = append(knownHit, f.name)
 			}
 		}
@@ -324,20 +333,23 @@ func runCheck(prop, repo, verif, tier, work string, tmo int, verbose bool, updat
 	ev := Evidence{PropertyID: prop, Tier: tier, Seed: seed, Level: "proof", WallS: round3(time.Since(t0).Seconds()), Violations: violations,
 		Assumptions: assumptions,
 		Coverage: map[string]any{
-			"obligations":              nObl,
-			"discharged":               nDis,
-			"bounded_obligations":      nBounded,
-			"bounded_discharged":       nBoundedDis,
-			"checker_cmd":              fmt.Sprintf("/verif/bin/govc check %s --tier %s --repo %s", prop, tier, repo),
-			"trusted_base":             tb,
-			"functions_under_contract": funcs,
-			"samples":                  samples,
-			"slowest":                  slowest,
-			"solver_seconds_total":     round3(solverTime),
-			"vacuity":                  map[string]any{"cover_queries": nCover, "cover_sat": nCoverOK},
-			"known_findings_hit":       knownHit,
-			"per_query_timeout_s":      tmo,
-			"contracts_files":          relFiles(cs.Files, repo),
+			// obligations that fail as LISTED known findings are reported on their own (known_findings_hit):
+			// "obligations" counts the ones this run set out to discharge
+			"obligations":                          nObl - len(knownHit),
+			"obligations_failing_as_known_finding": len(knownHit),
+			"discharged":                           nDis,
+			"bounded_obligations":                  nBounded,
+			"bounded_discharged":                   nBoundedDis,
+			"checker_cmd":                          fmt.Sprintf("/verif/bin/govc check %s --tier %s --repo %s", prop, tier, repo),
+			"trusted_base":                         tb,
+			"functions_under_contract":             funcs,
+			"samples":                              samples,
+			"slowest":                              slowest,
+			"solver_seconds_total":                 round3(solverTime),
+			"vacuity":                              map[string]any{"cover_queries": nCover, "cover_sat": nCoverOK},
+			"known_findings_hit":                   knownHit,
+			"per_query_timeout_s":                  tmo,
+			"contracts_files":                      relFiles(cs.Files, repo),
 		}}
 	evFile := filepath.Join(verif, "evidence", prop+".json")
 	if repo == "/repo" {
@@ -452,6 +464,19 @@ func tryReplay(prog *Program, cs *ContractSet, rep *FuncReport, o *ObligSummary,
 
 // tryCanary runs the hand-written canary input registered for an obligation (replay/canaries/index.json)
 // against the real code; used where the solver gives no model (nonlinear / quantified obligations).
+func hasCanary(obligation, verif string) bool {
+	b, err := os.ReadFile(filepath.Join(verif, "replay", "canaries", "index.json"))
+	if err != nil {
+		return false
+	}
+	var idx map[string]json.RawMessage
+	if json.Unmarshal(b, &idx) != nil {
+		return false
+	}
+	_, ok := idx[obligation]
+	return ok
+}
+
 func tryCanary(obligation, repo, verif, work string, rr *ReplayResult) bool {
 	b, err := os.ReadFile(filepath.Join(verif, "replay", "canaries", "index.json"))
 	if err != nil {
